@@ -24,6 +24,7 @@ CATALOGUE = [
     # over another prime
     dict(name="GF17sub7", p=17, d=1, mc=(0,), parent=7),
     dict(name="GF13^2sub5", p=13, d=2, mc=(2, 0), parent=5),
+    dict(name="GF7^2sub_mc", p=7, d=2, mc=(3, 1), parent=(7, (1, 0))),      # same prime, only the modulus overridden
     # quadratic, i^2 = -1 as in both curves
     dict(name="GF3^2", p=3, d=2, mc=(1, 0)), dict(name="GF7^2", p=7, d=2, mc=(1, 0)),
     dict(name="GF11^2", p=11, d=2, mc=(1, 0)),
@@ -134,10 +135,32 @@ def _rows_job(job):
     base = {"f": fi, "fam": fam, "op": op}
     for o in operands:
         r = dict(base)
+        if op in ("augadd", "augsub", "augmul"):
+            a, b = o
+            r["a"], r["b"] = a, b
+            x = mk(a)
+            yb = x if a == b else mk(b)              # x op= x when the operands are equal
+
+            def aug(x=x, yb=yb, op=op):
+                y = x
+                if op == "augadd":
+                    y += yb
+                elif op == "augsub":
+                    y -= yb
+                else:
+                    y *= yb
+                return y
+            res = _safe(aug)
+            r["r"] = pr(res)
+            r["x"] = pr(x) if not isinstance(res, str) else a
+            rows.append(r)
+            continue
         if op in ("add", "sub", "mul", "div"):
             a, b = o
             r["a"], r["b"] = a, b
             x, y = mk(a), mk(b)
+            if a == b and (len(rows) % 2):          # every other time the SAME object on both sides (x / x, x - x)
+                y = x
             r["r"] = pr(_safe({"add": lambda: x + y, "sub": lambda: x - y, "mul": lambda: x * y,
                                "div": lambda: x / y}[op]))
         elif op in ("eq", "ne"):
@@ -265,6 +288,8 @@ def build_tables(tier: str, seed: int, families=("ref", "opt"), log=lambda *a: N
                 jobs.append(((fi, f, fam, op, operands), arity if exhaustive else 0))
             for op in ("add", "sub", "mul", "div", "eq", "ne"):
                 add(op, pairs, 2, ex_bin)
+            for op in ("augadd", "augsub", "augmul"):
+                add(op, pairs[:400] + [(a_, a_) for a_ in el_un[:40]])
             if d == 1:
                 for op in ("lt", "le", "gt", "ge"):
                     add(op, pairs if len(pairs) <= 1000 else pairs[:1000])
